@@ -1268,6 +1268,10 @@ class ReprStructure:
             c for c in self.columns
             if c.name not in columns_names
         ]
+        # removal of a 'break by' column changes the set of visible records,
+        # so widths of the remaining columns must be detected again
+        for c in self.columns:
+            c.width = None
 
     def make_record_ch_chunks_all(self, record, cp) -> [[CHText.Chunk]]:
         """Create intermediate data for the record's text representation.
